@@ -43,6 +43,8 @@ type c16Case struct {
 	// Hide (reads): the request also carries a fields= ("fields") or fc.xfields= ("xfields") parameter that leaves the
 	// operand of the expression out of the answer: what the expression decides stays the same, the answer is its projection
 	Hide string `json:"hide,omitempty"`
+	// Store (reads): "" = the reference node serves the data; json-reader | xml-reader = a document the library read does
+	Store string `json:"store,omitempty"`
 }
 
 func c16Type(base string) *dm.Type {
@@ -530,8 +532,20 @@ func c16Run(c c16Case, o *hx.Obs) {
 	}
 	var text string
 	var rerr error
+	if c.Store != "" {
+		o.Class("data served by the %s", c.Store)
+	}
 	if o.Guard("read", func() {
-		sel := node.NewBrowser(mm, dm.NewRS(modelRoot, dm.CloneTree(data))).Root()
+		var src node.Node = dm.NewRS(modelRoot, dm.CloneTree(data))
+		if c.Store != "" {
+			st, e := dm.NewStore(c.Store, modelRoot, data)
+			if e != nil {
+				rerr = fmt.Errorf("harness: %v", e)
+				return
+			}
+			src = st.Node()
+		}
+		sel := node.NewBrowser(mm, src).Root()
 		if c.Placement == "list-when-where" {
 			// a where that holds for every row must not bring back rows their when hides
 			sel, rerr = sel.Find("l?where=" + url.QueryEscape("k>=0") + hideParam("&", true))
@@ -626,6 +640,9 @@ func c16Gen(t *rapid.T) c16Case {
 		Shape: rapid.SampledFrom([]string{"", "", "", "nested", "nested2"}).Draw(t, "shape")}
 	if c.Placement == "where" && rapid.IntRange(0, 3).Draw(t, "through-list") == 0 {
 		c.Shape = "through-list"
+	}
+	if !c.Edit && c.Placement != "filter" {
+		c.Store = rapid.SampledFrom([]string{"", "", "json-reader", "xml-reader"}).Draw(t, "store")
 	}
 	if !c.Edit && c.Placement != "filter" && rapid.IntRange(0, 3).Draw(t, "hide") == 0 {
 		c.Hide = rapid.SampledFrom([]string{"fields", "xfields", "content"}).Draw(t, "hide-by")
